@@ -387,6 +387,13 @@ func (env *SpecEnv) evalCall(c *SCall) *Value {
 		}
 		_, dsh := e.mapDomKey(v.Sh)
 		return scalar(dsh, e.mapDom(env.state(), v))
+	case "vals":
+		v := env.eval(c.Args[0])
+		if v.Sh.Kind != KMapRef {
+			specFail("vals of %s", v.Sh)
+		}
+		vk, vsh := e.mapValKey(v.Sh)
+		return e.heapRead(env.state(), vk, vsh, v.T())
 	case "fresh":
 		v := env.eval(c.Args[0])
 		oa := env.st.alloc
@@ -394,6 +401,8 @@ func (env *SpecEnv) evalCall(c *SCall) *Value {
 			oa = env.old.alloc
 		}
 		return boolV(and("(>= "+scalarT(v, c)+" "+oa+")", "(> "+scalarT(v, c)+" 0)"))
+	case "allocMark":
+		return intV(env.state().alloc)
 	case "allocated":
 		v := env.eval(c.Args[0])
 		return boolV("(< " + scalarT(v, c) + " " + env.state().alloc + ")")
